@@ -95,24 +95,29 @@ Example min_number_bool :
 Proof. vm_compute. repeat split; reflexivity. Qed.
 
 (* ---- replacement: the _id --------------------------------------------------------------- *)
-(* the replacement branch takes the _id from the FILTER when the filter has an "_id" key: an
-   operator document is stored as the _id *)
+(* the replacement branch USED TO take the _id from the FILTER when the filter has an "_id" key:
+   an operator document was stored as the _id
+   (d' was VDoc [("_id", VDoc [("$gt", VInt 0)]); ("a", VInt 2)], replace_law = false).
+   repaired in the library: the _id is that of the document being replaced, the law holds
+   (replace_id_risk is conservative here). *)
 Example replace_filter_id_operator :
   let spec := VDoc [("_id", VDoc [("$gt", VInt 0)])] in
   let r := VDoc [("a", VInt 2)] in
   let d := VDoc [("_id", VInt 1); ("a", VInt 1)] in
-  let d' := VDoc [("_id", VDoc [("$gt", VInt 0)]); ("a", VInt 2)] in
-  apply_update spec r false 0 d = Ok d' /\ replace_law r d d' = false /\
+  let d' := VDoc [("_id", VInt 1); ("a", VInt 2)] in
+  apply_update spec r false 0 d = Ok d' /\ replace_law r d d' = true /\
   value_eqb (patch r) r = true /\ wf_value r = true /\ replace_id_risk spec r d = true.
 Proof. vm_compute. repeat split; reflexivity. Qed.
 
-(* a filter _id that only == the stored one replaces it: 1 becomes 1.0 *)
+(* a filter _id that only == the stored one USED TO replace it: 1 became 1.0
+   (d' was VDoc [("_id", VDbl 8); ("a", VInt 2)], replace_law = false).
+   repaired in the library: the _id 1 is kept, the law holds. *)
 Example replace_filter_id_float :
   let spec := VDoc [("_id", VDbl 8)] in
   let r := VDoc [("a", VInt 2)] in
   let d := VDoc [("_id", VInt 1); ("a", VInt 1)] in
-  let d' := VDoc [("_id", VDbl 8); ("a", VInt 2)] in
-  apply_update spec r false 0 d = Ok d' /\ replace_law r d d' = false /\
+  let d' := VDoc [("_id", VInt 1); ("a", VInt 2)] in
+  apply_update spec r false 0 d = Ok d' /\ replace_law r d d' = true /\
   value_eqb (patch r) r = true /\ wf_value r = true /\ replace_id_risk spec r d = true.
 Proof. vm_compute. repeat split; reflexivity. Qed.
 
